@@ -80,7 +80,7 @@ static void check_checksum(const std::string& content, const std::string& asset)
     n_checks++; std::optional<std::string> got; try { got = parseChecksum(content, asset); } catch (...) { fail("parseChecksum.never_raises", hex(content), "exception"); return; }
     std::optional<std::string> want; std::istringstream in(content); std::string line;
     while (std::getline(in, line)) { std::istringstream p(line); std::string h, nme; if (!(p >> h >> nme)) continue; if (!nme.empty() && nme[0] == '*') nme.erase(0, 1); if (nme == asset) { want = h; break; } }
-    if (got != want) fail("parseChecksum.selects_line_of_exactly_that_asset", hex(content) + "/" + hex(asset), "got '" + got.value_or("<none>") + "' want '" + want.value_or("<none>") + "'");
+    if (got != want) fail("parseChecksum.result_is_hash_of_the_line_naming_exactly_this_asset", hex(content) + "/" + hex(asset), "got '" + got.value_or("<none>") + "' want '" + want.value_or("<none>") + "'");
 }
 static std::string rnd(std::mt19937& g, const char* alpha, int maxlen) { int n = g() % (maxlen + 1); std::string s; size_t k = strlen(alpha); for (int i = 0; i < n; i++) s.push_back(alpha[g() % k]); return s; }
 int main(int argc, char** argv) {
